@@ -3,11 +3,13 @@
 package rules
 
 import (
-	"golang.org/x/tools/go/callgraph"
-	"golang.org/x/tools/go/callgraph/cha"
 	"fmt"
 	"go/ast"
 	"go/types"
+	"golang.org/x/tools/go/callgraph"
+	"golang.org/x/tools/go/callgraph/cha"
+	"golang.org/x/tools/go/callgraph/vta"
+	"golang.org/x/tools/go/ssa/ssautil"
 	"sort"
 
 	"gverif/internal/load"
@@ -27,6 +29,7 @@ type Env struct {
 	ym       *wiring.YModel
 	modelErr bool
 	cha      *callgraph.Graph
+	vta      *callgraph.Graph
 }
 
 // Control loads (once) a positive-control fixture module under /verif/fixtures.
@@ -54,6 +57,15 @@ func (e *Env) chaGraph() *callgraph.Graph {
 		e.cha = cha.CallGraph(e.P.SSA)
 	}
 	return e.cha
+}
+
+// vtaGraph: the call graph refined by variable-type analysis (function values are resolved through the
+// values that can flow into them, not by signature alone).
+func (e *Env) vtaGraph() *callgraph.Graph {
+	if e.vta == nil {
+		e.vta = vta.CallGraph(ssautil.AllFunctions(e.P.SSA), e.chaGraph())
+	}
+	return e.vta
 }
 
 var registry = map[string]func(*Env){}
